@@ -34,7 +34,14 @@ const (
 	oneLine          listStyle = iota
 	folded                     // continuation lines after each separator
 	foldedFirstEmpty           // "Field:\n a,\n b"
+	wide                       // two blanks where one separates the elements
 )
+
+// genSpaceStyle: how a blank-separated list without an explicit delimiter tag
+// (Architecture, Closes) is laid out: on one line, folded, or with runs of blanks
+func genSpaceStyle(t *rt.Tape, label string) listStyle {
+	return []listStyle{oneLine, folded, wide}[t.Weighted([]int{4, 1, 1}, label)]
+}
 
 func renderList(items []string, sep string, style listStyle) string {
 	switch style {
@@ -42,6 +49,8 @@ func renderList(items []string, sep string, style listStyle) string {
 		return strings.Join(items, strings.TrimRight(sep, " ")+"\n ")
 	case foldedFirstEmpty:
 		return "\n " + strings.Join(items, strings.TrimRight(sep, " ")+"\n ")
+	case wide:
+		return strings.Join(items, sep+" ")
 	}
 	return strings.Join(items, sep)
 }
@@ -152,6 +161,7 @@ type mDSC struct {
 	Format, Source      string
 	Binaries            []string
 	BinStyle            listStyle
+	SpStyle             listStyle
 	Archs               []mArch
 	Version             mVersion
 	Origin, Maintainer  string
@@ -171,6 +181,7 @@ func genDSC(t *rt.Tape, label string, source string, binaries []string, deps dep
 		d.BinStyle = folded
 	}
 	d.Archs = genArchList(t, label+".archs")
+	d.SpStyle = genSpaceStyle(t, label+".spstyle")
 	d.Version = genVersion(t, label+".ver")
 	if t.Bool(1, 4, label+".origin") {
 		d.Origin = "debian"
@@ -225,7 +236,7 @@ func (d mDSC) render() string {
 	w.f("Format", d.Format)
 	w.f("Source", d.Source)
 	w.f("Binary", renderList(d.Binaries, ", ", d.BinStyle))
-	w.f("Architecture", strings.Join(archTexts(d.Archs), " "))
+	w.f("Architecture", renderList(archTexts(d.Archs), " ", d.SpStyle))
 	w.f("Version", d.Version.Text)
 	w.f("Origin", d.Origin)
 	w.f("Maintainer", d.Maintainer)
@@ -257,6 +268,7 @@ type mChanges struct {
 	Format, Source                string
 	Binaries                      []string
 	BinStyle                      listStyle
+	SpStyle                       listStyle
 	Archs                         []mArch
 	Version                       mVersion
 	Origin, Distribution, Urgency string
@@ -271,6 +283,7 @@ func genChanges(t *rt.Tape, label string) mChanges {
 	c.Binaries = genSubset(t, []string{"libfoo1", "libfoo-dev", "foo-doc", "foo", "python3-foo"}, 1, 4, label+".bins")
 	c.BinStyle = listStyle(t.Weighted([]int{3, 1}, label+".binstyle"))
 	c.Archs = append([]mArch{{"source", "gnu", "linux", "source", true}}, genArchList(t, label+".archs")[:1]...)
+	c.SpStyle = genSpaceStyle(t, label+".spstyle")
 	c.Version = genVersion(t, label+".ver")
 	c.Distribution = clDists[t.Draw(len(clDists), label+".dist")]
 	c.Urgency = []string{"low", "medium", "high"}[t.Draw(3, label+".urg")]
@@ -290,13 +303,13 @@ func (c mChanges) render() string {
 	w.f("Date", "Mon, 02 Jan 2006 15:04:05 +0000")
 	w.f("Source", c.Source)
 	w.f("Binary", renderList(c.Binaries, " ", c.BinStyle))
-	w.f("Architecture", strings.Join(archTexts(c.Archs), " "))
+	w.f("Architecture", renderList(archTexts(c.Archs), " ", c.SpStyle))
 	w.f("Version", c.Version.Text)
 	w.f("Distribution", c.Distribution)
 	w.f("Urgency", c.Urgency)
 	w.f("Maintainer", c.Maintainer)
 	w.f("Changed-By", c.ChangedBy)
-	w.f("Closes", strings.Join(c.Closes, " "))
+	w.f("Closes", renderList(c.Closes, " ", c.SpStyle))
 	w.sb.WriteString("Changes:\n")
 	for _, l := range c.ChangesLines {
 		if l == "" {
@@ -556,6 +569,7 @@ type mSrcIndex struct {
 	Package                                string
 	Binaries                               []string
 	BinStyle                               listStyle
+	SpStyle                                listStyle
 	Version                                mVersion
 	Maintainer, Uploaders                  string
 	Archs                                  []mArch
@@ -573,6 +587,7 @@ func genSrcIndex(t *rt.Tape, label string, i int) mSrcIndex {
 	s.Maintainer = uploaderPool[t.Draw(len(uploaderPool), label+".maint")]
 	s.Uploaders = strings.Join(genSubset(t, uploaderPool, 0, 2, label+".upl"), ", ")
 	s.Archs = genArchList(t, label+".archs")
+	s.SpStyle = genSpaceStyle(t, label+".spstyle")
 	s.Standards, s.Format = "4.6.2", "3.0 (quilt)"
 	s.Files = genFiles(t, s.Package+"_"+s.Version.Upstream, label+".files", 1)
 	s.VcsBrowser, s.VcsGit = "https://salsa.debian.org/x/"+s.Package, "https://salsa.debian.org/x/"+s.Package+".git"
@@ -606,7 +621,7 @@ func (s mSrcIndex) render() string {
 	if len(s.BDI) > 0 {
 		w.f("Build-Depends-Indep", s.BDI.render(false))
 	}
-	w.f("Architecture", strings.Join(archTexts(s.Archs), " "))
+	w.f("Architecture", renderList(archTexts(s.Archs), " ", s.SpStyle))
 	w.f("Standards-Version", s.Standards)
 	w.f("Format", s.Format)
 	w.files("Files", s.Files, mFile.md5, false)
